@@ -401,7 +401,26 @@ func weightedOp(r *rng.R) int {
 	}
 }
 
+// directed: capacities that are no power of two (and some that are), well over N puts, then replays from several ages
+func genFiniteCapacities(c *Ctx) {
+	for _, auto := range []bool{false, true} {
+		for _, n := range []int{5, 7, 12, 16, 17, 20, 24, 31, 32, 33, 48, 100} {
+			g := &histGen{auto: auto}
+			ops := []val.V{}
+			for i := 0; i < 2*n+3; i++ {
+				ops = append(ops, finiteOp(g, opPut0, nil))
+				if i == n-1 || i == n || i == n+1 || i == 2*n+2 {
+					ops = append(ops, finiteOp(g, opRepNewest, nil), finiteOp(g, opRep3, nil))
+				}
+			}
+			c.Count("directed:capacity-sweep")
+			c.Emit(val.L(val.Int(n), val.Bool(auto), val.List(ops)))
+		}
+	}
+}
+
 func genFinite(c *Ctx) {
+	genFiniteCapacities(c)
 	// capacities below the minimum are rejected
 	for _, n := range []int{0, 1} {
 		c.Emit(val.L(val.Int(n), val.Bool(true), val.L()))
@@ -510,6 +529,21 @@ func genValid(c *Ctx) {
 					}
 				}
 			}
+		}
+	}
+	// directed: "keep (almost) forever" TTLs - close to the largest Duration, 250 years
+	for _, auto := range []bool{false, true} {
+		for _, ttlv := range []int64{9223372036854775807 - 4_000_000_000_000, 250 * 365 * 24 * 3600 * 1_000_000_000, 1 << 62} {
+			g := &histGen{auto: auto}
+			vops := []val.V{}
+			now := int64(0)
+			for i := 0; i < 6; i++ {
+				now += 1_000_000_000
+				vops = append(vops, validOp(g, opPut0, now, nil))
+			}
+			vops = append(vops, validOp(g, opRep3, now, nil), validOp(g, -1, now+3_000_000_000, nil), validOp(g, opRep2, now+3_000_000_000, nil), validOp(g, opPut0, now+3_000_000_001, nil), validOp(g, opRepNewest, now+3_000_000_002, nil))
+			c.Count("directed:very-long-ttl")
+			c.Emit(val.L(val.Z(ttlv), val.Bool(auto), val.L(), val.List(vops)))
 		}
 	}
 	// directed: grow the ring to L slots with one put per tick, let all but r entries expire, collect explicitly (the
